@@ -139,6 +139,16 @@ def stage_spec(ctx, params=None, extra_files=()):
     return d
 
 
+def set_cfg_constant(ctx, cfg, name, value):
+    """Rewrite `CONSTANT <name> = ...` in the staged copy of a configuration."""
+    path = os.path.join(ctx.path("spec"), cfg)
+    text = open(path).read()
+    new, n = re.subn(r"(?m)^CONSTANT %s = .*$" % re.escape(name), "CONSTANT %s = %s" % (name, tla_value(value)), text)
+    if n != 1:
+        raise Inconclusive("configuration %s has no constant %s" % (cfg, name))
+    open(path, "w").write(new)
+
+
 def tla_value(v):
     if isinstance(v, bool):
         return "TRUE" if v else "FALSE"
